@@ -1410,7 +1410,14 @@ ElemTemplateElement::postConstruction(
             // Just a single xsl:call-template child, so we don't need to
             // execute it if it has no params -- we can just execute the
             // template directly...
-            if (m_firstChild->hasParams() == false)
+            //
+            // Not for a top-level xsl:variable or xsl:param (no parent
+            // element): its content is run through execute(), which makes
+            // the called template its own invoker, so that the template
+            // would not know it was called and would become the current
+            // template rule.
+            if (m_firstChild->hasParams() == false &&
+                getParentNodeElem() != 0)
             {
                 m_flags |= eHasDirectTemplate;
 
